@@ -69,10 +69,25 @@ Proof.
     assert (b = b') by (destruct body; cbn in E, E'; congruence). subst b'. now destruct ((a =? cST) && (b =? cSL)). }
   destruct Hb as [Hb1 Hb2]. rewrite until_close_cons, Hb1. specialize (IH Hb2). cbn [app] in IH. rewrite IH. reflexivity.
 Qed.
-(* a block comment is replaced by exactly the newlines it contains *)
+(* a block comment is replaced by exactly the newlines it contains, by one blank when it contains none *)
 Lemma strip_block_comment body rest f : no_close (body ++ [cST]) = true ->
-  strip_go (S f) (cSL :: cST :: body ++ cST :: cSL :: rest) = newlines_of body ++ strip_go f rest.
+  strip_go (S f) (cSL :: cST :: body ++ cST :: cSL :: rest) = comment_repl body ++ strip_go f rest.
 Proof.
   intros H. cbn [strip_go]. change (cSL =? cDQ) with false. change (cSL =? cSQ) with false. change (cSL =? cSL) with true.
   change (cST =? cST) with true. cbn [orb]. now rewrite until_close_body.
+Qed.
+
+(* a line comment is replaced by one blank and ends in front of the first CARRIAGE RETURN or line feed: texts with CRLF line ends lose their comments too *)
+Definition no_eol (l : list Z) : bool := forallb (fun c => negb ((c =? cNL) || (c =? cCR))) l.
+Lemma line_rest_body body rest : no_eol body = true -> (match rest with [] => True | e :: _ => (e =? cNL) || (e =? cCR) = true end) -> line_rest (body ++ rest) = (body, rest).
+Proof.
+  induction body as [|c body IH]; intros H Hr.
+  - cbn [app]. destruct rest as [|e r]; [reflexivity|]. cbn [line_rest]. now rewrite Hr.
+  - cbn [no_eol forallb] in H. apply andb_prop in H as [Hc Hb]. cbn [app line_rest]. apply Bool.negb_true_iff in Hc. rewrite Hc. now rewrite (IH Hb Hr).
+Qed.
+Lemma strip_line_comment body rest f : no_eol body = true -> (match rest with [] => True | e :: _ => (e =? cNL) || (e =? cCR) = true end) ->
+  strip_go (S f) (cSL :: cSL :: body ++ rest) = 32 :: strip_go f rest.
+Proof.
+  intros H Hr. cbn [strip_go]. change (cSL =? cDQ) with false. change (cSL =? cSQ) with false. change (cSL =? cSL) with true.
+  change (cSL =? cST) with false. cbn [orb]. now rewrite (line_rest_body body rest H Hr).
 Qed.
